@@ -26,6 +26,12 @@ fn amount_strings() -> Vec<String> {
         if n == 0 { return vec![String::new()]; }
         vec!["5".repeat(n), "9".repeat(n), "0".repeat(n), format!("{}1", "0".repeat(n - 1)), "12345"[..n].to_string()]
     };
+    // rates (12d) and the 17d sum may carry up to 10 / 15 decimals: a few long fractions with short integer parts
+    for ni in 1..=3usize { for nd in 6..=11usize {
+        for i in [format!("1{}", "0".repeat(ni - 1)), "9".repeat(ni)] { for d in ["9876543210987"[..nd].to_string(), format!("{}1", "0".repeat(nd - 1)), "1".repeat(nd)] {
+            v.push(format!("{i},{d}"));
+        } }
+    } }
     for ni in 0..=16 { for nd in 0..=5 {
         for i in ints(ni) { for d in decs(nd) {
             v.push(format!("{i},{d}"));
